@@ -940,10 +940,37 @@ Proof.
     apply Z.eqb_eq in E1.
     destruct (q =? 0); [rewrite change_state_eq'|unfold ret]; intros Hc; exfalso; revert Hc; unfold state_changed;
       destruct Hq as [[_ Hq]|[_ Hq]]; rewrite ?Hq, ?E1; const_dec; cbn; try discriminate. }
+  assert (ENC : forall w1, E w w1 -> st (sk w1) <> c_RTR_CONNECTING).
+  { intros w1 [H|H]; [rewrite H; exact E0|apply err_b_not_connecting, H]. }
   destruct (st (sk w) =? c_RTR_SYNC) eqn:E2.
-  { eapply hoareE_conseq; [apply NC; [exact E0|]|cbv beta; intros a w' H Hc; exfalso; exact (H Hc)|auto].
-    repeat estep; try apply rtr_sync_E; try (eprim; fail).
-    (* the only state change outside rtr_sync is to ESTABLISHED *)
-    unfold change_state. repeat estep; try eprim. }
-  admit.
-Admitted.
+  { eapply hoareE_bind2; [apply (hoareE_of_rel E), rtr_sync_E|auto|].
+    cbv beta. intros r w1 HE1. unfold hoareE. destruct (r =? 0); [rewrite change_state_eq'|unfold ret]; intros Hc; exfalso; revert Hc.
+    - apply CS; [discriminate|apply ENC, HE1].
+    - apply ENC, HE1. }
+  destruct (st (sk w) =? c_RTR_ESTABLISHED) eqn:E3.
+  { eapply hoareE_bind2; [apply (hoareE_of_rel E), wait_for_sync_E|auto|].
+    cbv beta. intros r w1 HE1. destruct (r =? 0); [|apply hoareE_ret; intros Hc; exfalso; exact (ENC _ HE1 Hc)].
+    eapply hoareE_bind2; [apply (hoareE_of_rel E), send_serial_query_E|auto|].
+    cbv beta. intros q w2 HE2. assert (HE12 : E w w2) by (eapply E_trans; eauto).
+    unfold hoareE. destruct (q =? 0); [rewrite change_state_eq'|unfold ret]; intros Hc; exfalso; revert Hc.
+    - apply CS; [discriminate|apply ENC, HE12].
+    - apply ENC, HE12. }
+  destruct (st (sk w) =? c_RTR_FAST_RECONNECT) eqn:E4.
+  { apply Z.eqb_eq in E4. unfold hoareE.
+    destruct ((mdo _ <- tr_close; change_state c_RTR_CONNECTING) w); [intros _; right; exact E4|exact I]. }
+  destruct (st (sk w) =? c_RTR_ERROR_NO_DATA_AVAIL) eqn:E5.
+  { apply Z.eqb_eq in E5. destruct (no_data_step f w E5) as (w1 & E & S1 & _). revert E. unfold fsm_step.
+    rewrite (bind_eq get_sk _ w (sk w) w eq_refl). cbv zeta. rewrite E5. const_dec. intros E. unfold hoareE. rewrite E.
+    intros Hc. rewrite S1 in Hc. discriminate. }
+  destruct (st (sk w) =? c_RTR_ERROR_NO_INCR_UPDATE_AVAIL) eqn:E6.
+  { apply Z.eqb_eq in E6. destruct (no_incr_step f w E6) as (w1 & E & S1 & _). revert E. unfold fsm_step.
+    rewrite (bind_eq get_sk _ w (sk w) w eq_refl). cbv zeta. rewrite E6. const_dec. intros E. unfold hoareE. rewrite E.
+    intros Hc. rewrite S1 in Hc. discriminate. }
+  destruct ((st (sk w) =? c_RTR_ERROR_TRANSPORT) || (st (sk w) =? c_RTR_ERROR_FATAL)) eqn:E7.
+  { assert (He : st (sk w) = c_RTR_ERROR_TRANSPORT \/ st (sk w) = c_RTR_ERROR_FATAL).
+    { apply orb_true_iff in E7. destruct E7 as [H|H]; apply Z.eqb_eq in H; auto. }
+    destruct (err_step f w He) as (w1 & E & _ & _ & (Hn & _)). revert E. unfold fsm_step.
+    rewrite (bind_eq get_sk _ w (sk w) w eq_refl). cbv zeta.
+    apply Z.eqb_neq in E0. rewrite E0, E1, E2, E3, E4, E5, E6, E7. intros E. unfold hoareE. rewrite E. intros _. left. auto. }
+  apply hoareE_ret. intros Hc. contradiction.
+Qed.
